@@ -43,10 +43,10 @@ func vInvOpts(s vOptState) bool {
 	if s.xmlEscapeChars && s.xmlEscapeCharsDecoder {
 		return false
 	}
-	if len(s.textK) != 5 {
+	if len(s.textK) < 4 {
 		return false
 	}
-	p := s.textK[:1]
+	p := s.textK[:len(s.textK)-4] // any prefix string, also empty, long, or made of letters
 	if s.textK != p+"text" || s.seqK != p+"seq" || s.commentK != p+"comment" || s.attrK != p+"attr" ||
 		s.directiveK != p+"directive" || s.procinstK != p+"procinst" || s.targetK != p+"target" || s.instK != p+"inst" {
 		return false
@@ -59,7 +59,7 @@ func vInvOpts(s vOptState) bool {
 
 // vNondetOptState installs an arbitrary option state that satisfies the invariant.
 func vNondetOptState() {
-	p := vNondetString(1, 1, "#_%@")
+	p := vNondetString(0, 2, "#_at")
 	textK, seqK, commentK, attrK = p+"text", p+"seq", p+"comment", p+"attr"
 	directiveK, procinstK, targetK, instK = p+"directive", p+"procinst", p+"target", p+"inst"
 	includeTagSeqNum, lowerCase, snakeCaseKeys = vNondetBool(), vNondetBool(), vNondetBool()
@@ -156,7 +156,7 @@ func vExpectStep(s vOptState, i int, form int, b bool, arg string) vOptState {
 			s.xmlEscapeChars = false
 		}
 	case 17:
-		p := arg[:1]
+		p := arg
 		s.textK, s.seqK, s.commentK, s.attrK = p+"text", p+"seq", p+"comment", p+"attr"
 		s.directiveK, s.procinstK, s.targetK, s.instK = p+"directive", p+"procinst", p+"target", p+"inst"
 	case 18:
@@ -191,7 +191,7 @@ func H_C18_step() {
 	case 0:
 		arg = vNondetString(0, 2, "-@a")
 	case 17:
-		arg = vNondetString(1, 1, "#_%@")
+		arg = vNondetString(0, 2, "#_at")
 	default:
 		arg = vNondetString(1, 1, ":|;")
 	}
